@@ -3,6 +3,7 @@ from . import lpcommon as lc
 from .. import refmodel as rm
 
 ID = 'C01'
+ANCHOR_FILES = ['solver/lp_solver.py', 'solver/model.py', 'solver/fileIO.py', 'solver/solver.py']
 LEVEL = 'exploration'
 RULE = ('random small HA/SM/HR/SPA specs (12 hostile shapes) rendered with whitespace noise x random option sets '
         '(-twopl/-pc/-stab, 0-4 criteria with admissible arguments, flags permuted); every underlying solve is '
